@@ -45,6 +45,23 @@ func (c *fctx) callStmt(o *out, ind int, call *ast.CallExpr, lhs []ast.Expr, isD
 		o.emit(ind, "throw (Err.panic %s)", c.site(call.Pos()))
 		return
 	}
+	if fp := calleeFunc(c.info, call); fp != nil && lhs != nil {
+		ext := map[string]string{"net.ParseCIDR": "Go.parseCIDR", "time.ParseDuration": "Go.parseDuration", "net.ParseMAC": "Go.parseMAC"}[fp.FullName()]
+		if ext != "" { // uninterpreted standard-library parsers: (value..., error)
+			tmp := c.fresh("__x")
+			o.emit(ind, "let %s := %s %s", tmp, ext, c.expr(call.Args[0]))
+			res := fp.Type().(*types.Signature).Results()
+			for i, l := range lhs {
+				if id, ok := l.(*ast.Ident); ok && id.Name != "_" && c.x.kindOf(res.At(i).Type()) == kPtrStruct {
+					if v, ok := c.info.ObjectOf(id).(*types.Var); ok {
+						c.optVars[v] = true
+					}
+				}
+				c.define(o, ind, l, proj(tmp, i, res.Len()), isDefine)
+			}
+			return
+		}
+	}
 	if fp := calleeFunc(c.info, call); fp != nil && fp.FullName() == "(net.IPMask).Size" && len(lhs) == 2 {
 		tmp := c.fresh("__s")
 		o.emit(ind, "let %s := Go.maskSize %s", tmp, c.expr(call.Fun.(*ast.SelectorExpr).X))
@@ -81,6 +98,11 @@ func (c *fctx) callStmt(o *out, ind int, call *ast.CallExpr, lhs []ast.Expr, isD
 				bad("assignment arity at %s", c.site(call.Pos()))
 			}
 			for i, l := range lhs {
+				if id, ok := l.(*ast.Ident); ok && id.Name != "_" && c.x.kindOf(res.At(i).Type()) == kPtrStruct {
+					if v, ok := c.info.ObjectOf(id).(*types.Var); ok {
+						c.optVars[v] = true
+					}
+				}
 				c.define(o, ind, l, proj(tmp, i, total), isDefine)
 			}
 		}
@@ -130,8 +152,16 @@ func (c *fctx) callStmt(o *out, ind int, call *ast.CallExpr, lhs []ast.Expr, isD
 		} else {
 			ae = call.Args[ai]
 		}
+		if u, ok := ae.(*ast.UnaryExpr); ok && u.Op == token.AND { // f(&x): the callee writes *x
+			ae = u.X
+		}
 		if c.x.kindOf(c.typeOf(ae)) == kPtrStruct || c.x.kindOf(c.typeOf(ae)) == kStruct { // the callee returns the updated struct
 			lv := c.lvalue(ae)
+			if id, ok := ae.(*ast.Ident); ok && c.isOptVar(id) { // a possibly-nil local: dereference, store back as non-nil
+				inner := lv
+				site := c.site(call.Pos())
+				lv = lval{fmt.Sprintf("(← Go.derefOpt %s %s)", inner.get, site), func(nv string) string { return inner.set("(some " + nv + ")") }}
+			}
 			args[mi] = lv.get
 			wbs = append(wbs, wb{lv: lv, whole: true})
 			continue
@@ -413,7 +443,8 @@ func (c *fctx) forStmt(o *out, ind int, t *ast.ForStmt) {
 
 func (c *fctx) rangeStmt(o *out, ind int, t *ast.RangeStmt) {
 	k := c.x.kindOf(c.typeOf(t.X))
-	if k != kBytes && k != kList {
+	isMap := k == kMap // the entries in the order the association list holds them: any order (Go's is unspecified)
+	if k != kBytes && k != kList && !isMap {
 		bad("range over %s at %s", c.typeOf(t.X).String(), c.site(t.Pos()))
 	}
 	if t.Tok != token.DEFINE && (t.Key != nil || t.Value != nil) {
@@ -444,8 +475,10 @@ func (c *fctx) rangeStmt(o *out, ind int, t *ast.RangeStmt) {
 	var elemT string
 	if k == kBytes {
 		elemT = "UInt8"
+	} else if isMap {
+		elemT = "(Bytes × " + c.x.leanType(c.typeOf(t.X).Underlying().(*types.Map).Elem(), false) + ")"
 	} else {
-		elemT = c.x.leanType(c.typeOf(t.X).Underlying().(*types.Slice).Elem(), false)
+		elemT = c.x.leanType(elemOf(c.typeOf(t.X)), false)
 	}
 	state, captured := c.loopVars(t.Body, nil, t.Body.Pos(), bound)
 	lc := &loopCtx{outer: c.loop, name: name, state: state, hasRet: hasReturn(t.Body)}
@@ -474,7 +507,7 @@ func (c *fctx) rangeStmt(o *out, ind int, t *ast.RangeStmt) {
 	for _, n := range snames {
 		b.emit(2, "let mut %s := %s", n, n)
 	}
-	if keyName != "_" {
+	if keyName != "_" && !isMap {
 		b.emit(2, "let %s : Int := __i", keyName)
 	}
 	c.block(b, 2, t.Body.List)
@@ -501,7 +534,11 @@ func (c *fctx) rangeStmt(o *out, ind int, t *ast.RangeStmt) {
 	}
 	fmt.Fprintf(&sb, " : List %s → Int → %s → %s %s\n", elemT, sigma, monad, outT)
 	fmt.Fprintf(&sb, "  | [], _, %s => pure %s\n", pat, lc.done())
-	fmt.Fprintf(&sb, "  | %s :: __rest, __i, %s => do\n", valName, pat)
+	if isMap {
+		fmt.Fprintf(&sb, "  | (%s, %s) :: __rest, __i, %s => do\n", keyName, valName, pat)
+	} else {
+		fmt.Fprintf(&sb, "  | %s :: __rest, __i, %s => do\n", valName, pat)
+	}
 	for _, l := range b.lines {
 		sb.WriteString(l + "\n")
 	}
